@@ -63,7 +63,9 @@ MUTATORS = {
         ("attach without reindex", r"quimb/tensor/gating\.py$", r"^(\s+)tn\.reindex_\(reindex_map\)\s*$", None),
     ],
     "C07": [
-        ("drop staleness check", r"quimb/tensor/circuit/(exact|mps)\.py$", r"^(\s+)self\._maybe_init_storage\(\)\s*$", None),
+        ("drop staleness check", r"quimb/tensor/circuit/(exact|mps)\.py$", r"^(\s+)self\._maybe_init_storage\(\)\s*$", None,
+         # (these four only reach the caches through callees that carry their own guard: dropping theirs changes nothing)
+         r"^(?!amplitude$|compute_marginal$|sample_rehearse$|sample_chaotic_rehearse$)"),
         ("drop clear_storage", r"quimb/tensor/circuit/(core|mps)\.py$", r"^(\s+)self\.clear_storage\(\)\s*$", None),
     ],
     "C08": [
